@@ -276,8 +276,8 @@ CHECKS["C10"] = {
                      {"pkg": "internal/forwarder", "entries": ["ZZ_C10_*"], "witnesses": 6, "max_paths": 4000000, "budget_s": 3000}],
     },
     "covers": {"all": ["ZZ_C10_Notify:C10.notify.done", "ZZ_C10_Notify:C10.notify.unknown-session", "ZZ_C10_Notify:C10.notify.unknown-urr-dropped", "ZZ_C10_ModRsp:C10.rsp.done",
-                       "ZZ_C10_Multicast:C10.mcast.done", "ZZ_C10_Results:C10.result.done"]},
-    "bounds": {"quick": "data-plane side: REPORT multicast with 1..2 reports over two distinct symbolic SEIDs, symbolic URR ids and six 64-bit counters each, every one of the 18 single-cause trigger words, two concrete instant pairs; query/update/remove results with a symbolic trigger word. PFCP side: a session of either peer with two URRs whose DURAT/VOLUM/EVENT/MNOP settings are symbolic Booleans, batches of 1..2 reports naming arbitrary (known or unknown) URR ids with a symbolic 22-bit trigger word and symbolic counters, delivered for an arbitrary SEID; query / removal / deletion results in the Modification / Deletion response",
+                       "ZZ_C10_Multicast:C10.mcast.done", "ZZ_C10_Results:C10.result.done", "ZZ_C10_Multi:C10.multi.done", "ZZ_C10_Multi:C10.multi.split"]},
+    "bounds": {"quick": "data-plane side: REPORT multicast with 1..2 reports over two distinct symbolic SEIDs, symbolic URR ids and six 64-bit counters each, every one of the 18 single-cause trigger words, two concrete instant pairs; query/update/remove results with a symbolic trigger word; multi-URR (periodic) query of 1, 3, limit, limit+1 and 2*limit+2 (SEID, URR) pairs over three sessions (limit = gtp5gnl.MaxNetlinkUsageReportNum, so sessions straddle netlink request boundaries), every pair answered once with counters that encode the pair and one solver-chosen pair with symbolic counters. PFCP side: a session of either peer with two URRs whose DURAT/VOLUM/EVENT/MNOP settings are symbolic Booleans, batches of 1..2 reports naming arbitrary (known or unknown) URR ids with a symbolic 22-bit trigger word and symbolic counters, delivered for an arbitrary SEID; query / removal / deletion results in the Modification / Deletion response",
                "thorough": "batches of up to 3 reports"},
     "outside": "symbolic instants (the NTP conversion divides by 10^9; two concrete instants incl. the last second of NTP era 0); more than 3 reports per batch",
     "assumptions": PFCP_ASSUME + FWD_ASSUME,
